@@ -22,5 +22,7 @@ extern struct os_state g_os;
 /* ghost stream offset chosen by the harness and the byte the kernel delivered there (G1) */
 extern size_t g_er_idx;
 extern uint8_t g_er_snap;
+extern uint8_t * g_rd_base;
+extern size_t g_rd_base_pos;
 
 #endif /* !DRBG_OS_H_ */
